@@ -472,12 +472,52 @@ def rule_defaults(run):
     run.end()
 
 
+def rule_comprehension(run):
+    run.begin(
+        "C10.comp",
+        "list / dict comprehensions: per item the trailing conditions are evaluated in order and evaluation stops at the "
+        "first false one; the element (key, value) expression is evaluated only for items that passed all conditions",
+        floor=5,
+    )
+    prep = run.idx.mod(PREP)
+    ai = prep.func("PrepareAst.apply_impl")
+    pm = prep.parents
+    for cls_, parts in (("ast.ListComp", ("inp.elt",)), ("ast.DictComp", ("inp.key", "inp.value"))):
+        br = _branch(ai.node, cls_)
+        if br is None:
+            raise AnalysisError(f"anchor vanished: {cls_} handler")
+        name = f"apply_impl[{cls_}]"
+        item_loops = [l for l in br.body if isinstance(l, ast.For) and any(isinstance(c.func, ast.Attribute) and c.func.attr == "unpack" for c in calls_in(l))]
+        if len(item_loops) != 1:
+            raise AnalysisError(f"{cls_}: per-item loop not recognised")
+        lp = item_loops[0]
+        if_loops = [l for l in lp.body if isinstance(l, ast.For) and src(l.iter).endswith(".ifs")]
+        if len(if_loops) != 1:
+            raise AnalysisError(f"{cls_}: loop over the conditions not recognised")
+        il = if_loops[0]
+        # the flag set when a condition is false, and the early exit
+        flags = [a.targets[0].id for a in ast.walk(il) if isinstance(a, ast.Assign) and isinstance(a.targets[0], ast.Name) and isinstance(a.value, ast.Constant) and a.value.value is True]
+        brk = [b for b in ast.walk(il) if isinstance(b, ast.Break)]
+        ok = len(flags) == 1 and len(brk) == 1 and any(isinstance(anc, ast.If) and isinstance(anc.test, ast.UnaryOp) and isinstance(anc.test.op, ast.Not) for anc in pm.ancestors(brk[0]) if anc is not il)
+        run.ob(ok, name, file=prep.rel, line=il.lineno, detail="short-circuit", expected="stop evaluating conditions at the first false one (break)", found="ok" if ok else f"{len(brk)} break statement(s): every condition is evaluated")
+        flag = flags[0] if flags else None
+        for part in parts:
+            calls = [c for c in ast.walk(lp) if isinstance(c, ast.Call) and dotted(c.func) == "self.apply" and c.args and dotted(c.args[0]) == part]
+            if len(calls) != 1:
+                raise AnalysisError(f"{cls_}: evaluation of {part} not recognised")
+            c = calls[0]
+            guarded = any(isinstance(anc, ast.If) and src(anc.test) == f"not {flag}" and any(x is c for b in anc.body for x in ast.walk(b)) for anc in pm.ancestors(c))
+            after = c.lineno > il.lineno
+            run.ob(guarded and after, name, file=prep.rel, line=c.lineno, detail=f"{part}-after-conditions", expected=f"self.apply({part}) only under `if not {flag}` after the conditions", found=("ok" if guarded and after else "evaluated " + ("before the conditions" if not after else "unconditionally")))
+    run.end()
+
+
 def rule_purge(run):
     from . import c11
     c11.rule_definition_purge(run)   # a stale cached definition makes a traced function see old globals (C10) and history (C11)
 
 
-RULES = [rule_tables, rule_dispatch, rule_compare_chain, rule_boolop, rule_fail_closed, rule_bind, rule_env, rule_builtins, rule_siblings, rule_unpack, rule_purge, rule_defaults]
+RULES = [rule_tables, rule_dispatch, rule_compare_chain, rule_boolop, rule_fail_closed, rule_bind, rule_env, rule_builtins, rule_siblings, rule_unpack, rule_purge, rule_defaults, rule_comprehension]
 LEVEL = "other"
 EXPLANATION = (
     "The tracer re-implements CPython's evaluation rules by hand; decided here, for all programs, are the parts of "
